@@ -717,7 +717,14 @@ func funcShort(full string) string {
 	return full
 }
 
+var reFrameHeap = regexp.MustCompile(`frame\[[^\]]*\]`)
+var reLoopFrame = regexp.MustCompile(`inv\d+#frame\[[^\]]*\]\.(init|keep)`)
+
 func clauseKey(name string) string {
+	// frame obligations are one clause per function (per loop): a heap the reference tree never touched has no
+	// obligation of its own there, so a change that starts writing it must still fail a clause that was discharged
+	name = reLoopFrame.ReplaceAllString(name, "frame") // loop frames belong to the function's frame clause (a new loop has no clause of its own)
+	name = reFrameHeap.ReplaceAllString(name, "frame")
 	k := reRet.ReplaceAllString(name, "")
 	k = reConj.ReplaceAllString(k, "")
 	if strings.Contains(k, ":pre@") {
